@@ -24,7 +24,8 @@ EXPLANATION = (
     "per-iteration name by reference, and the conditions of _update_context read the keys type/compose/variable only; (g) the list of "
     "composed types is extended with a list (the applied variable's compose list) and appended a single type name; (h) no function or lambda nested in the variables module changes an object it captured from "
     "the call that created it (getters are functions of the value, without memo); (i) the **kwargs of the three constructors are handed to var_context.update "
-    "whole -- no comprehension, loop or test selects among them by value.  Does not decide the nested-dictionary values (that compose lists types in order for all chains).")
+    "whole -- no comprehension, loop or test selects among them by value.  Does not decide the nested-dictionary values (that compose lists types in order for all chains)."    " Added after the eighth round of seeded changes and the second round of behaviour-preserving changes: (j) TYPE KEYS LITERAL: in lena.variables.variable the path argument of update_recursively(d, path, v)/get_recursively/str_to_dict/contains is a string constant, never a type or name; the bulk form of the carry-over (cvar.update(<generator>)) keeps the guard `type not in cvar`."
+)
 RULES = {
     "C14-j": "TYPE KEYS LITERAL: the variables module addresses context.variable by plain keys; a type, a name or another user "
              "string is never handed to the dotted-path helpers of lena.context (where 'a.b' means nesting)",
